@@ -1,6 +1,7 @@
 import Yaql.Drv.Util
 import Yaql.Model.Resolve
 import Yaql.Model.ResolveCtx
+import Yaql.Model.Signature
 /-! Driver for the overload-resolution model (C05, C06, C11, C12): decodes overload
 families, class graphs and calls, runs `Yaql.Resolve.resolve` (or `resolveOld`-free
 binding functions) and encodes the outcome. -/
@@ -123,6 +124,7 @@ def encMapping (m : Mapping) : Json :=
 
 /-- one history on live contexts: `{"defs":[fd…], "steps":[{"k":"root"} | {"k":"child","i":n} |
     {"k":"reg","i":n,"name":s,"fid":n,"x":b} | {"k":"del","i":n,"name":s,"fid":n} |
+    {"k":"multi","ms":[n…]} | {"k":"linked","p":n|null,"t":n} |
     {"k":"call","i":n,"name":s,"call":{…}}]}` -> the outcome of every call step, made in the state
     of its moment (`Yaql.ResolveCtx.run` / `resolveIn`) -/
 def runHist (L : Lattice) (h : Json) : Json :=
@@ -136,13 +138,97 @@ def runHist (L : Lattice) (h : Json) : Json :=
     | "reg" => (Yaql.ResolveCtx.step st
                   (.register (jnat stp "i") (nm (jstr stp "name")) (jnat stp "fid") (jbool stp "x")), outs)
     | "del" => (Yaql.ResolveCtx.step st (.delete (jnat stp "i") (nm (jstr stp "name")) (jnat stp "fid")), outs)
+    | "multi" => (Yaql.ResolveCtx.step st (.multi ((jarr stp "ms").map asNat)), outs)
+    | "linked" => (Yaql.ResolveCtx.step st (.linked (jnatOpt stp "p") (jnat stp "t")), outs)
     | "call" =>
         (st, encOutcome (Yaql.ResolveCtx.resolveIn L defs st (jnat stp "i") (nm (jstr stp "name"))
                            (decCall (jget stp "call"))) :: outs)
     | _ => (st, outs)
   jl ((jarr h "steps").foldl go ({}, [])).2.reverse
 
+/-! ### `specs.get_function_definition`: Python signature + decorators -> parameter table -/
+
+def encCKind : CKind → String
+  | .string => "string" | .boolean => "boolean" | .numeric => "numeric" | .any => "any"
+
+def encTy : PTy → Json
+  | .py (.one c) n vs => jo [("t", js "py"), ("n", .bool n), ("vs", jl (vs.map jn)), ("one", jn c)]
+  | .py (.many cs) n vs => jo [("t", js "py"), ("n", .bool n), ("vs", jl (vs.map jn)), ("many", jl (cs.map jn))]
+  | .lambda m => jo [("t", js "lambda"), ("m", .bool m)]
+  | .mappingRule => jo [("t", js "mr")]
+  | .yaqlExpr ks => jo [("t", js "ye"), ("ks", jl (ks.map jn))]
+  | .constant n kind => jo [("t", js "const"), ("n", .bool n), ("kind", js (encCKind kind))]
+  | .keyword => jo [("t", js "kw")]
+  | .hidden h => jo [("t", js "hid"), ("h", js (encHKind h))]
+
+def encKey : Key → Json
+  | .name n => nmJ n
+  | .star => js "*"
+  | .starstar => js "**"
+
+def encParam (p : Param) : Json :=
+  jo [("key", encKey p.key), ("name", nmJ p.name),
+      ("alias", match p.alias with | some a => nmJ a | none => .null),
+      ("pos", match p.position with | some i => jn i | none => .null),
+      ("def", match p.default with | some a => encArg a | none => .null),
+      ("ty", encTy p.ty)]
+
+def optBool (j : Json) (k : String) : Option Bool :=
+  match j.getObjVal? k with
+  | .ok (.bool b) => some b
+  | _ => none
+
+open Yaql.Signature in
+def decSig (j : Json) : PySig :=
+  { args := (jarr j "args").map fun a => nm (asStr a),
+    defaults := (jarr j "defaults").map decArg,
+    varargs := optName j "varargs",
+    kwonly := (jarr j "kwonly").map fun a => nm (asStr a),
+    kwdefaults := decKw j "kwdefaults",
+    varkw := optName j "varkw" }
+
+open Yaql.Signature in
+/-- a decorator: `{"name":s | "index":n, "ty": null | {"smart":type} | {"cls":n}, "nullable":b|null, "alias":s|null}`;
+    `none` = IndexError of a positional reference -/
+def decDecl (sig : PySig) (j : Json) : Option Decl :=
+  let name : Option Name := match jnatOpt j "index" with
+    | some i => byIndex sig i
+    | none => some (nm (jstr j "name"))
+  let tyj := jget j "ty"
+  let ty : DType :=
+    if jisNull tyj then .absent
+    else if jhas tyj "smart" then .smart (decTy (jget tyj "smart"))
+    else .pyclass (jnat tyj "cls")
+  name.map fun n => { name := n, ty := ty, nullable := optBool j "nullable", alias := optName j "alias" }
+
+def allSome : List (Option α) → Option (List α)
+  | [] => some []
+  | none :: _ => none
+  | some a :: r => (allSome r).map (a :: ·)
+
+open Yaql.Signature in
+/-- `{"args":…,"defaults":…,"varargs":…,"kwonly":…,"kwdefaults":…,"varkw":…,"decls":[…],"conv":[[name,converted]…]|null}`
+    -> `{"ps":[parameter…]}` in dict order | `{"err":…}` -/
+def runSig (k : Consts) (j : Json) : Json :=
+  let sig := decSig j
+  match allSome ((jarr j "decls").map (decDecl sig)) with
+  | none => jo [("err", js "index")]
+  | some decls =>
+      let conv : Option (Name → Name) :=
+        if jisNull (jget j "conv") then none
+        else
+          let table : List (Name × Name) := (jarr j "conv").map fun p => match asArr p with
+            | [a, b] => (nm (asStr a), nm (asStr b))
+            | _ => ([], [])
+          some fun n => (alookup n table).getD n
+      match define k inferByName conv sig decls with
+      | .ok ps => jo [("ps", jl (ps.map encParam))]
+      | .error .duplicate => jo [("err", js "duplicate")]
+      | .error .noParameterFound => jo [("err", js "noParameterFound")]
+
 /-- `{"lat":…, "fams":[{"layers":[…], "calls":[…]}]}` -> `{"out":[[outcome per call] per family]}`;
+    with `"op":"sig"`: `{"consts":{"object":n,"vTrue":n}, "sigs":[signature + decorators]}` -> the parameter table
+    `Yaql.Signature.define` makes of each;
     with `"op":"hist"`: `{"lat":…, "hists":[history]}` -> `{"out":[[outcome per call step] per history]}`;
     with `"op":"bind"`: `{"lat":…, "defs":[{"fd":…, "calls":[…]}]}` -> per call the result of
     `map_args` and `get_delegate` alone (no evaluation) -/
@@ -159,6 +245,10 @@ def handle (req : Json) : Json :=
               ("del", match getDelegate L fd.params c.args c.kwargs with
                        | some b => jo (encBound b) | none => .null)])))]
   | "hist" => jo [("out", jl ((jarr req "hists").map (runHist L)))]
+  | "sig" =>
+      let k : Yaql.Signature.Consts :=
+        { object := jnat (jget req "consts") "object", vTrue := jnat (jget req "consts") "vTrue" }
+      jo [("out", jl ((jarr req "sigs").map (runSig k)))]
   | _ =>
       jo [("out", jl ((jarr req "fams").map fun f =>
         let layers := (jarr f "layers").map decLayer
